@@ -385,7 +385,7 @@ func (cl *Clients) runOp(op *ClientOp, res *ClientResult, conn *Conn, br *bufio.
 			res.Body = append(res.Body, buf[:n]...)
 			res.BodyLen = len(res.Body)
 			res.Arrivals = append(res.Arrivals, Arrival{At: s.Now(), N: len(res.Body)})
-			s.setProgress(res.Nonce, len(res.Body))
+			s.setProgress(res.Nonce, len(res.Body), res.Body)
 			if op.Abort != nil && op.Abort.At == "resp" && len(res.Body) >= op.Abort.K {
 				cl.abort(op, res, conn)
 				return false
